@@ -235,9 +235,9 @@ class Recorder:
         ex = [t[2] for t in r.tag("summary") if len(t) > 2 and t[1] == "exit"]
         return ex[-1] if ex else ("ok" if r.rc == 0 else "none")
 
-    def check(self, *flags):
+    def check(self, *flags, rules=None):
         present = self.present_levels()
-        r = self.a.run("check", *flags)
+        r = self.a.run("check", *flags, rules=rules)
         self.last_result = r
         de, pe = self._derr(r)
         out = {"exit": self._exit(r), "rc": r.rc, "derr": [list(x) for x in de], "perr": [list(x) for x in pe]}
@@ -308,9 +308,9 @@ class Recorder:
                            "out": {"rc": r.rc}})
         return r
 
-    def scrub(self, plan="full", *flags):
+    def scrub(self, plan="full", *flags, rules=None):
         present = self.present_levels()
-        r = self.a.run("scrub", "-p", plan, *flags)
+        r = self.a.run("scrub", "-p", plan, *flags, rules=rules)
         self.last_result = r
         de, pe = self._derr(r)
         out = {"exit": self._exit(r), "rc": r.rc, "derr": [list(x) for x in de], "perr": [list(x) for x in pe]}
